@@ -29,6 +29,7 @@ PROPS['C10'] = dict(
         dict(name='lsb', variant='asan', harness='c10_pitch.cpp', quick=160, thorough=160, budget=120),
         dict(name='porta', variant='asan', harness='c10_pitch.cpp', quick=3000, thorough=20000, budget=120),
         dict(name='vibrato', variant='asan', harness='c10_pitch.cpp', quick=2000, thorough=15000, budget=60),
+        dict(name='seqbend', variant='asan', harness='c10_pitch.cpp', quick=1600, thorough=16000, budget=60),
         dict(name='scope', variant='asan', harness='c10_pitch.cpp', quick=8000, thorough=60000, budget=60),
     ],
 )
